@@ -62,25 +62,25 @@ def coq_sources():
 
 
 def coq_make(targets=None):
-    """Full .vo build (incremental), serialised across concurrent checks.
-    With targets, only those .vo files and what they depend on."""
+    """Full .vo build (incremental).  With targets, only those .vo files and what
+    they depend on.  The lock covers only the regeneration of _CoqProject/Makefile
+    (a long proof compiled on behalf of one check must not block the others)."""
     import fcntl
     os.makedirs(BUILD, exist_ok=True)
     with open(os.path.join(BUILD, "coq.lock"), "w") as lk:
         fcntl.flock(lk, fcntl.LOCK_EX)
-        return _coq_make(targets)
-
-
-def _coq_make(targets=None):
-    mk = os.path.join(COQ, "Makefile.coq")
-    files = [os.path.relpath(f, COQ) for f in coq_sources()]
-    proj = "-Q . Gnmi\n-arg -w -arg -notation-overridden,-deprecated-hint-without-locality,-deprecated-instance-without-locality\n" + "\n".join(files) + "\n"
-    pj = os.path.join(COQ, "_CoqProject")
-    old = open(pj).read() if os.path.exists(pj) else ""
-    if old != proj or not os.path.exists(mk):
-        open(pj, "w").write(proj)
-        sh(["coq_makefile", "-f", "_CoqProject", "-o", "Makefile.coq"], cwd=COQ, check=True)
-    rc, out = sh(["make", "-f", "Makefile.coq", "-j16"] + list(targets or []), cwd=COQ, timeout=3000)
+        mk = os.path.join(COQ, "Makefile.coq")
+        files = [os.path.relpath(f, COQ) for f in coq_sources()]
+        proj = "-Q . Gnmi\n-arg -w -arg -notation-overridden,-deprecated-hint-without-locality,-deprecated-instance-without-locality\n" + "\n".join(files) + "\n"
+        pj = os.path.join(COQ, "_CoqProject")
+        old = open(pj).read() if os.path.exists(pj) else ""
+        if old != proj or not os.path.exists(mk):
+            open(pj, "w").write(proj)
+            sh(["coq_makefile", "-f", "_CoqProject", "-o", "Makefile.coq"], cwd=COQ, check=True)
+    try:
+        rc, out = sh(["make", "-f", "Makefile.coq", "-j16"] + list(targets or []), cwd=COQ, timeout=3000)
+    except subprocess.TimeoutExpired:
+        return False, "coq build timed out"
     return rc == 0, out
 
 
